@@ -189,6 +189,59 @@ class RandomSets(Fam):
             yield dict(a=sorted(A), b=sorted(B), dta=dta, dtb=dtb)
 
 
+class AliasedViews(Fam):
+    """both arguments are views into ONE buffer (same start address, same number of bytes) that nevertheless hold different sets:
+    a contiguous and a strided slice, a row and a column of a matrix, one buffer read at two integer widths; plus genuinely identical views"""
+    name = 'aliased-views'
+    exhaustive = True
+    rule = ('pairs of views into one buffer for every dtype and lengths 1..8: x[:n] vs x[:2n:2], row 0 vs column 0 of an n x n matrix, an unsigned buffer '
+            'viewed at its own and at twice its width, the same object twice, a view of itself, a reversed-reversed view')
+
+    def inputs(self, ctx):
+        for dt in DTYPES:
+            for n in range(1, 9):
+                for kind in ('slice-vs-strided', 'row-vs-column', 'two-widths', 'same-object', 'view-of-itself', 'double-reverse'):
+                    if kind == 'two-widths' and dt not in ('u2', 'u4'):
+                        continue
+                    yield dict(kind=kind, n=n, dt=dt)
+
+    def execute(self, inp):
+        n, dt = inp['n'], np.dtype(inp['dt'])
+        kind = inp['kind']
+        if kind == 'slice-vs-strided':
+            x = np.arange(3, 3 + 2 * n, dtype=dt) * 3
+            a, b = x[:n], x[:2 * n:2]
+        elif kind == 'row-vs-column':
+            m = (np.arange(n * n, dtype=dt).reshape(n, n) + 5)
+            a, b = m[0], m[:, 0]
+        elif kind == 'two-widths':
+            y = np.arange(1, 2 * n + 1, dtype=dt) * 7
+            a, b = y, y.view(np.dtype(f'u{dt.itemsize * 2}'))
+        else:
+            x = np.arange(2, 2 + n, dtype=dt) * 5
+            a = x
+            b = x if kind == 'same-object' else x[:] if kind == 'view-of-itself' else x[::-1][::-1]
+        av, bv = [int(v) for v in a], [int(v) for v in b]
+        assert av == sorted(set(av)) and bv == sorted(set(bv))
+        ra, rb = ranks(av, bv)
+        r = dict(op='set', a=ra, b=rb, dta=str(a.dtype), dtb=str(b.dtype), ok=False, err='')
+        z = f32_fields(0.0)
+        r.update(dab=z, dba=z, jab=fix47(0.0), jba=fix47(0.0))
+        try:
+            r['dab'] = f32_fields(jaccarddist(a, b)); r['dba'] = f32_fields(jaccarddist(b, a))
+            r['jab'] = fix47(jaccard(a, b)); r['jba'] = fix47(jaccard(b, a))
+            r['ok'] = [int(v) for v in a] == av and [int(v) for v in b] == bv
+        except Exception as e:
+            r['err'] = type(e).__name__
+        return r
+
+    def nontrivial(self, inp, rec):
+        return core.short_hash(inp) if set(rec['a']) != set(rec['b']) and set(rec['a']) & set(rec['b']) else None
+
+    def describe(self, inp, rec):
+        return f"{inp['kind']} n={inp['n']} dtype={inp['dt']}"
+
+
 class LongIntervals(Fam):
     """signatures of 2^12 .. 2^20 (thorough 2^23) k-mers, lengths at and next to powers of two: the sets are unions of intervals, shipped to
     TLC as interval lists (cardinalities by arithmetic)"""
@@ -236,7 +289,7 @@ class LongIntervals(Fam):
         return f"{inp['shape']} a={inp['a']} b={inp['b']} dtypes={inp['dta']},{inp['dtb']} top={inp['top']}"
 
 
-FAMILIES = [ExhaustiveSubsets, ByteOrder, RandomSets, LongIntervals]
+FAMILIES = [ExhaustiveSubsets, ByteOrder, RandomSets, AliasedViews, LongIntervals]
 
 
 def run(ctx):
